@@ -69,9 +69,9 @@ fn empty_view() -> Value {
     json!({"base": Value::Object(base), "marks": []})
 }
 
-const ASPECTS: [&str; 17] = [
+const ASPECTS: [&str; 18] = [
     "cells", "styles", "links", "linkset", "rows", "cols", "merges", "comments", "cf", "dv", "af", "drawing", "ole",
-    "tables", "pivots", "page", "props",
+    "tables", "pivots", "page", "props", "names",
 ];
 
 /// Projection of one materialised sheet through public getters.
@@ -161,9 +161,10 @@ fn view(ws: &Worksheet) -> Value {
         dig(&ws.get_tab_color()),
         dig(ws.get_state()),
         dig(&ws.get_code_name()),
-        // defined names of a sheet carry the sheet's own name (set_sheet_name rewrites them): rendered relative to it
-        dig(&format!("{:?}", ws.get_defined_names()).replace(&format!("{:?}", ws.get_name()), "<own sheet name>")),
     ];
+    // defined names attached to the sheet: set_sheet_name rewrites the sheet name inside them, so they are an aspect
+    // of their own that is only compared with the original while the sheet keeps its name
+    let names: Vec<String> = ws.get_defined_names().iter().map(dig).collect();
     marks.sort();
     json!({
         "base": {
@@ -172,6 +173,7 @@ fn view(ws: &Worksheet) -> Value {
             "merges": dig_list(&merges), "comments": dig_list(&comments), "cf": dig_list(&cf), "dv": dig_list(&dv),
             "af": dig_list(&af), "drawing": dig_list(&drawing), "ole": dig_list(&ole), "tables": dig_list(&tables),
             "pivots": dig_list(&pivots), "page": dig_list(&page), "props": dig_list(&props),
+            "names": dig_list(&names),
         },
         "marks": marks.iter().map(|(k, t, v)| json!({"k": k, "t": t, "v": v})).collect::<Vec<_>>(),
     })
